@@ -356,8 +356,13 @@ func genRandom(cfg *hx.Config, idx int) ([]hx.T, []string) {
 	var ops []hx.T
 	var regs, built []regd
 	k := hx.Pick(r, []int64{0, 0, 1, 5})
+	badIDs, _ := unservable()
 	register := func() {
 		zid := r.Intn(len(zoo))
+		if r.Intn(6) == 0 { // an entry Build() will refuse, often under a name somebody else wants
+			zid = hx.Pick(r, badIDs)
+			tags["register:unservable"] = true
+		}
 		group := ""
 		switch p := r.Intn(10); {
 		case p < 5:
@@ -973,4 +978,108 @@ func randomObject(r *rand.Rand, id int64) []byte {
 		}
 	}
 	return object(id, st, r.Intn(5))
+}
+
+// ---- rejected registrations ----
+// Every reason Build() can refuse an entry (unnamed type, unexported type name, no handler-shaped
+// method - incl. a value whose handlers have pointer receivers -, group name already taken) x a
+// valid entry asking for the SAME group name, in every order, interleaved with Build.
+
+func unservable() (ids []int, why map[int]string) {
+	why = map[int]string{}
+	for zid := range zoo {
+		rd := regd{zid: zid, ms: methodsOf(zid)}
+		if rd.servable() {
+			continue
+		}
+		tn := goTypeName(zoo[zid])
+		switch {
+		case tn == "":
+			why[zid] = "unnamed-type"
+		case tn[0] < 'A' || tn[0] > 'Z':
+			why[zid] = "unexported-type"
+		case reflect.TypeOf(zoo[zid]).Kind() != reflect.Ptr:
+			why[zid] = "value-with-pointer-receivers"
+		default:
+			why[zid] = "no-handler-shaped-method"
+		}
+		ids = append(ids, zid)
+	}
+	return
+}
+
+func enumerateRejections(thorough bool, emit func(string, []hx.T, []string)) {
+	bads, why := unservable()
+	goods := []int{0, 11, 1, remoteZoo[0]} // Z01, Z12 (notify only), Z02, R01
+	k := int64(0)
+	orders := [][]string{
+		{"bad", "good", "build"},
+		{"bad", "build", "good", "build"},
+		{"bad", "bad", "good", "build"},
+		{"good", "bad", "build"},
+		{"bad", "good", "build", "bad", "build"},
+		{"good", "good2", "bad", "build"},
+		{"bad", "good2", "good", "build", "good", "build"},
+	}
+	for bi, bad := range bads {
+		for gi, good := range goods {
+			for mode := 0; mode < 3; mode++ {
+				for oi, order := range orders {
+					if !thorough && !(mode == 0 && oi < 3 && gi < 2) && (bi+gi+mode+oi)%5 != 0 {
+						continue
+					}
+					good2 := goods[(gi+1)%len(goods)]
+					// group name / naming function per mode
+					name := func(zid int) (string, any) {
+						switch mode {
+						case 0:
+							return "room", "None"
+						case 1: // the valid entry keeps its type name, the others ask for exactly that
+							if zid == good {
+								return "", "None"
+							}
+							return goTypeName(zoo[good]), "None"
+						default: // every name becomes "x"
+							return "", some(hx.C("nf_const", bytesOf("x")))
+						}
+					}
+					var ops []hx.T
+					var regs, built []regd
+					probe := func() {
+						seen := map[string]bool{}
+						for _, rd := range regs {
+							for i := range rd.ms {
+								rt := rd.groupName() + "." + rd.nf.apply(rd.ms[i].name)
+								if seen[rt] || len(rd.ms[i].ins) < 2 {
+									continue
+								}
+								seen[rt] = true
+								ops = append(ops, hx.C("OHas", k, bytesOf(rt)), hx.C("OArgT", k, bytesOf(rt)))
+								m := &rd.ms[i]
+								if t := target(built, rt); t != nil {
+									m = t
+								}
+								ops = append(ops, callSer(k, built, "SJson", rt, goodPayload("SJson", msgTidOf(m), int64(i+1)), ctxTermFor(m), true, "BOk", false))
+							}
+						}
+					}
+					for _, st := range order {
+						switch st {
+						case "build":
+							ops = append(ops, hx.C("OBuild", k))
+							built = append([]regd{}, regs...)
+							probe()
+						default:
+							zid := map[string]int{"bad": bad, "good": good, "good2": good2}[st]
+							g, nf := name(zid)
+							op, rd := mkReg(k, zid, g, nf)
+							ops = append(ops, op)
+							regs = append(regs, rd)
+						}
+					}
+					emit("rejection", ops, []string{"rejected:" + why[bad], fmt.Sprintf("rejection:mode-%d", mode), "rejection:order-" + strings.Join(order, ",")})
+				}
+			}
+		}
+	}
 }
